@@ -44,19 +44,15 @@ type reconfIn struct {
 		// File: the long-lived server is configured from a watched configuration file and every change is made by
 		// replacing that file (the way a deployment is reconfigured); otherwise through Config.Set
 		File bool `json:"file"`
+		// Opl (with File): the namespaces come from a watched OPL file named in the configuration file; changes to
+		// the namespace list and to the content of n rewrite that OPL file, changes to the limits the configuration file
+		Opl bool `json:"opl"`
 	} `json:"histories"`
 }
 
-func reconfWriteFile(t *testing.T, path string, depth, width int, ns []string) {
-	var b strings.Builder
-	fmt.Fprintf(&b, "limit:\n  max_read_depth: %d\n  max_read_width: %d\nnamespaces:\n", depth, width)
-	s := append([]string{}, ns...)
-	sort.Strings(s)
-	for _, n := range s {
-		fmt.Fprintf(&b, "  - name: %s\n", n)
-	}
+func reconfReplace(t *testing.T, path, content string) {
 	tmp := path + ".tmp"
-	if err := os.WriteFile(tmp, []byte(b.String()), 0o600); err != nil {
+	if err := os.WriteFile(tmp, []byte(content), 0o600); err != nil {
 		t.Fatal(err)
 	}
 	if err := os.Rename(tmp, path); err != nil {
@@ -64,20 +60,82 @@ func reconfWriteFile(t *testing.T, path string, depth, width int, ns []string) {
 	}
 }
 
+// reconfOplPath is the OPL file next to the configuration file.
+func reconfOplPath(cfgFile string) string {
+	return filepath.Join(filepath.Dir(cfgFile), "namespaces.ts")
+}
+
+// reconfOpl is reconfNamespaces in the permission language.
+func reconfOpl(ns []string, content string) string {
+	var b strings.Builder
+	b.WriteString("import { Namespace, Context } from \"@ory/keto-namespace-types\"\n")
+	s := append([]string{}, ns...)
+	sort.Strings(s)
+	for _, n := range s {
+		if n == "n" && content == "rw" {
+			fmt.Fprintf(&b, "class n implements Namespace {\n  related: { r: n[] }\n  permits = { r2: (ctx: Context): boolean => this.related.r.includes(ctx.subject) }\n}\n")
+		} else {
+			fmt.Fprintf(&b, "class %s implements Namespace {}\n", n)
+		}
+	}
+	return b.String()
+}
+
+func reconfWriteFile(t *testing.T, path string, depth, width int, ns []string, opl bool, content string) {
+	var b strings.Builder
+	fmt.Fprintf(&b, "limit:\n  max_read_depth: %d\n  max_read_width: %d\nnamespaces:\n", depth, width)
+	if opl {
+		cur, _ := os.ReadFile(reconfOplPath(path))
+		if want := reconfOpl(ns, content); string(cur) != want {
+			reconfReplace(t, reconfOplPath(path), want)
+		}
+		fmt.Fprintf(&b, "  location: file://%s\n", reconfOplPath(path))
+	} else {
+		s := append([]string{}, ns...)
+		sort.Strings(s)
+		for _, n := range s {
+			fmt.Fprintf(&b, "  - name: %s\n", n)
+		}
+	}
+	if cur, _ := os.ReadFile(path); string(cur) != b.String() {
+		reconfReplace(t, path, b.String())
+	}
+}
+
 // reconfFileServer starts the long-lived server from a watched configuration file.
-func reconfFileServer(t *testing.T, path string) *storeEnv {
-	reconfWriteFile(t, path, 8, 100, []string{"n", "m"})
+func reconfFileServer(t *testing.T, path string, opl bool) *storeEnv {
+	reconfWriteFile(t, path, 8, 100, []string{"n", "m"}, opl, "plain")
 	reg := driver.VerifNewFileRegistry(t, path)
 	writeOrderedRaw(t, reg, reconfData())
 	return envFor(t, reg)
 }
 
 // reconfAwait waits until the configuration store of the server shows the values now in the file.
+// (The polling runs in its own goroutine: a namespace store that no longer answers must not stop the harness.)
 func reconfAwait(t *testing.T, e *storeEnv, s reconfStep) bool {
+	done := make(chan bool, 1)
+	stop := make(chan struct{})
+	go func() { done <- reconfAwaitIn(e, s, stop) }()
+	select {
+	case ok := <-done:
+		return ok
+	case <-time.After(20 * time.Second):
+		close(stop)
+		return false
+	}
+}
+
+func reconfAwaitIn(e *storeEnv, s reconfStep, stop chan struct{}) bool {
 	want := append([]string{}, s.Ns...)
 	sort.Strings(want)
+	nrel := map[string]int{"plain": 0, "rw": 2}[s.Content]
 	deadline := time.Now().Add(15 * time.Second)
 	for time.Now().Before(deadline) {
+		select {
+		case <-stop:
+			return false
+		default:
+		}
 		c := e.reg.Config(context.Background())
 		src := c.Source()
 		var got []string
@@ -85,6 +143,9 @@ func reconfAwait(t *testing.T, e *storeEnv, s reconfStep) bool {
 			if nss, err := nm.Namespaces(context.Background()); err == nil {
 				for _, n := range nss {
 					got = append(got, n.Name)
+					if n.Name == "n" && len(n.Relations) != nrel {
+						got = append(got, "(other content)")
+					}
 				}
 			}
 		}
@@ -142,9 +203,27 @@ func reconfServer(t *testing.T, depth, width int, ns []string, content string) *
 	return envFor(t, reg)
 }
 
+// reconfGrace: every request carries a deadline of reconfDeadline; one that has not returned reconfGrace after it
+// was sent is recorded as a hang (the reply "HANG ..." differs from every reply of the reference server).
+const (
+	reconfDeadline = 10 * time.Second
+	reconfGrace    = 25 * time.Second
+)
+
+func (e *storeEnv) reconfDoT(req string) string {
+	ch := make(chan string, 1)
+	go func() { ch <- e.reconfDo(req) }()
+	select {
+	case s := <-ch:
+		return s
+	case <-time.After(reconfGrace):
+		return fmt.Sprintf("HANG: no reply %v after the request was sent with a deadline of %v", reconfGrace, reconfDeadline)
+	}
+}
+
 func (e *storeEnv) reconfDo(req string) string {
 	defer func() { recover() }()
-	ctx, cancel := context.WithCancel(e.ctx("A"))
+	ctx, cancel := context.WithTimeout(e.ctx("A"), reconfDeadline)
 	defer cancel()
 	depthOf := func() string {
 		if i := strings.LastIndex(req, "_d"); i >= 0 && req[i+2:] != "0" {
@@ -239,7 +318,7 @@ func famReconf(t *testing.T) {
 					t.Fatal(err)
 				}
 				cfgFile = filepath.Join(dir, "keto.yaml")
-				live = reconfFileServer(t, cfgFile)
+				live = reconfFileServer(t, cfgFile, h.Opl)
 			} else {
 				live = reconfServer(t, 8, 100, []string{"n", "m"}, "plain")
 			}
@@ -249,8 +328,15 @@ func famReconf(t *testing.T) {
 			changed := false
 			for si, s := range h.Steps {
 				if s.Op == "set" && h.File {
-					reconfWriteFile(t, cfgFile, s.Depth, s.Width, s.Ns)
+					reconfWriteFile(t, cfgFile, s.Depth, s.Width, s.Ns, h.Opl, s.Content)
 					if !reconfAwait(t, live, s) {
+						// not picked up: inconclusive, unless the server has stopped answering requests at all
+						if got := live.reconfDoT("check_chain_d0"); strings.HasPrefix(got, "HANG") {
+							diffs = append(diffs, map[string]any{"step": si, "request": "check_chain_d0", "config_in_force": "(the change of this step was not picked up within 15 s)",
+								"long_lived_server": got, "server_started_with_this_config": "(any reply)"})
+							out.write(map[string]any{"h": hi, "requests": nreq + 1, "after_change": afterChange + 1, "diffs": diffs, "file": h.File, "opl": h.Opl})
+							return
+						}
 						out.write(map[string]any{"h": hi, "noreload": true, "step": si})
 						return
 					}
@@ -279,7 +365,7 @@ func famReconf(t *testing.T) {
 					f = reconfServer(top, s.Depth, s.Width, s.Ns, s.Content)
 					fresh[k] = f
 				}
-				got, want := live.reconfDo(s.Req), f.reconfDo(s.Req)
+				got, want := live.reconfDoT(s.Req), f.reconfDoT(s.Req)
 				nreq++
 				if changed {
 					afterChange++
@@ -287,9 +373,12 @@ func famReconf(t *testing.T) {
 				if got != want {
 					diffs = append(diffs, map[string]any{"step": si, "request": s.Req, "config_in_force": k,
 						"long_lived_server": trunc(got, 600), "server_started_with_this_config": trunc(want, 600)})
+					if strings.HasPrefix(got, "HANG") {
+						break
+					}
 				}
 			}
-			out.write(map[string]any{"h": hi, "requests": nreq, "after_change": afterChange, "diffs": diffs, "file": h.File})
+			out.write(map[string]any{"h": hi, "requests": nreq, "after_change": afterChange, "diffs": diffs, "file": h.File, "opl": h.Opl})
 		})
 	}
 }
